@@ -225,7 +225,10 @@ func (s *SoftwrapScanner) Scan() bool {
 	// Clear token
 	s.token = []vaxis.Cell{}
 
-	var w uint16
+	// The widths are summed in ints: a word or a run of spaces can be
+	// wider than a uint16 holds
+	var w int
+	width := int(s.width)
 	for {
 		seg, br := firstLineSegment(s.rest)
 		rest := []vaxis.Cell{}
@@ -235,8 +238,8 @@ func (s *SoftwrapScanner) Scan() bool {
 
 		var (
 			word     []vaxis.Cell
-			wordLen  uint16
-			spaceLen uint16
+			wordLen  int
+			spaceLen int
 		)
 
 		// "TrimRight"
@@ -254,15 +257,15 @@ func (s *SoftwrapScanner) Scan() bool {
 		// Trailing space is anything after word
 		trSpace := seg[len(word):]
 		for _, ch := range word {
-			wordLen += uint16(ch.Width)
+			wordLen += ch.Width
 		}
 		for _, ch := range trSpace {
-			spaceLen += uint16(ch.Width)
+			spaceLen += ch.Width
 		}
 
 		// This word is longer than the line. We have to break on
 		// graphemes
-		if wordLen > s.width {
+		if wordLen > width {
 			// End a line that already has content first: the word
 			// is broken from the start of the next line, so that
 			// the parts of it which fit on a line stay whole
@@ -275,7 +278,7 @@ func (s *SoftwrapScanner) Scan() bool {
 			for _, char := range word {
 				// The line takes graphemes while they fit, and
 				// always at least one
-				if len(s.token) > 0 && w+uint16(char.Width) > s.width {
+				if len(s.token) > 0 && w+char.Width > width {
 					full = true
 				}
 				if full {
@@ -284,7 +287,7 @@ func (s *SoftwrapScanner) Scan() bool {
 					continue
 				}
 				s.token = append(s.token, char)
-				w += uint16(char.Width)
+				w += char.Width
 			}
 			// Append the trailing space
 			s.rest = append(s.rest, trSpace...)
@@ -294,7 +297,7 @@ func (s *SoftwrapScanner) Scan() bool {
 		}
 
 		// Check if this segment fits. If it doesn't we are done
-		if w+wordLen > s.width {
+		if w+wordLen > width {
 			return true
 		}
 
@@ -317,7 +320,7 @@ func (s *SoftwrapScanner) Scan() bool {
 		w += wordLen
 
 		// If the space doesn't fit, we return now
-		if w+spaceLen > s.width {
+		if w+spaceLen > width {
 			return true
 		}
 
